@@ -66,7 +66,9 @@ def make_fB(P, spec):
         lam = float(np.exp(rng.uniform(-2, 3)))
         return (lambda x: P.f(x) + 0.5 * lam * float(x @ x)), (lambda x: P.g(x) + lam * x), f"reg lambda={lam:.3g}"
     Qm, _ = np.linalg.qr(rng.standard_normal((n, n)))
-    ev = rng.standard_normal(n) * spec["strength"] * float(np.linalg.eigvalsh(P.meta["A"])[0] + 1.0)
+    eigs = np.linalg.eigvalsh(P.meta["A"])
+    # sized relative to the typical curvature so that a sizeable fraction of the stored pairs loses curvature
+    ev = rng.standard_normal(n) * spec["strength"] * float(np.exp(np.mean(np.log(eigs))) + 1.0) * 0.5
     Q = (Qm * ev) @ Qm.T
     Q = (Q + Q.T) / 2
     return (lambda x: P.f(x) + 0.5 * float(x @ (Q @ x))), (lambda x: P.g(x) + Q @ x), "indefinite"
